@@ -52,6 +52,8 @@ def plan_C01(chk, tier, seed):
     cfgs = ["none", "all"] if tier == "quick" else ALL8
     vectors(chk, "MC_Requests", "MC_Cases", cfgs, ["C01"],
             ["TypeOK", "DecodeTotal", "DecodeFaithful", "KeyAttribution", "HostCanonical", "Emit"])
+    # nested maps whose members come in another order (not canonical: HostCanonical is not asserted)
+    simple(chk, "MC_Requests", ["none", "all"], ["C01"], ["TypeOK", "DecodeTotal", "DecodeFaithful", "KeyAttribution", "Emit"], cases="OrderCases")
     # the dictionary of the source, the specially-parsed texts, and every member once per sub-command
     simple(chk, "MC_Requests", ["all"] if tier == "quick" else ["none", "all"], ["C01"],
            ["TypeOK", "DecodeTotal", "DecodeFaithful", "KeyAttribution", "Emit"],
@@ -142,6 +144,8 @@ def plan_C03(chk, tier, seed):
     cfgs = ["none", "all"] if tier == "quick" else ALL8
     vectors(chk, "MC_Responses", "MC_Cases" if tier == "quick" else "MC_CasesDeep", cfgs, ["C03"], RESP_INV)
     reused_buffers(chk, "C03")
+    # the extension map embedded in authenticator data (also when the buffer runs out inside it)
+    simple(chk, "MC_AuthData", ["all"], ["C03"], ["TypeOK", "AuthDataLayout", "Emit"], extra_constants="    Deep = FALSE\n")
     value_traces(chk, "all", "MC_Responses", "MC_Cases", 1500 if tier == "quick" else 30000, seed + 1, "C03.values")
     if tier == "thorough":
         value_traces(chk, "all", "MC_AuthData", "MC_Cases", 10000, seed + 2, "C03.authdata.values", extra="    Deep = FALSE\n")
@@ -323,6 +327,8 @@ def plan_C05(chk, tier, seed):
     simple(chk, "MC_Faults", cfgs, ["C05"], inv, extra_constants='    SeedKinds = {"min", "full"}\n')
     simple(chk, "MC_Commands", ["none", "all"], ["C05"], ["TypeOK", "DecodeTotal", "StatusByFaultKind", "CommandTableTotal", "Emit"],
            cases="CommandCases")
+    # a request whose nested maps list their members in another order is still a well-formed request
+    simple(chk, "MC_Requests", ["all"], ["C05"], ["TypeOK", "DecodeTotal", "DecodeFaithful", "Emit"], cases="OrderCases")
     return ("every single fault (remove each required member at every nesting level, truncate at every byte offset, "
             "duplicate each key adjacent and at the end, widen every integer / key / length head to every wider form, "
             "make every string and container indefinite, replace every value by a representative of every other data "
@@ -399,6 +405,8 @@ PLANS.update({"C05": plan_C05, "C11": plan_C11, "C18": plan_C18})
 def plan_C12(chk, tier, seed):
     cfgs = ["none", "all"] if tier == "quick" else ALL8
     simple(chk, "MC_Lattice", cfgs, ["C12"], ["TypeOK", "DecodeTotal", "LimitsExact", "Emit"])
+    # the CTAP1 key handle: its length byte is exact, not exact modulo 256
+    simple(chk, "MC_U2f", ["none"], ["C12"], ["TypeOK", "U2fParse", "Emit"], cases="KeyHandleLimitCases")
     return ("every bounded member (user id 64, rp id 256, user icon 128, parameter type 32, allow list 10, exclude list "
             "16, saltEnc 80, saltAuth 32, COSE x/y 32, rpIDHash =32) at 0, 1, limit-1, limit, limit+1, 4*limit inside "
             "the full request of every command that carries it; every u8 / u32 member at 0, 1, 23, 24, max, max+1, "
@@ -434,6 +442,8 @@ def plan_C14(chk, tier, seed):
     simple(chk, "MC_Filter", cfgs, ["C14"],
            ["TypeOK", "DecodeTotal", "DecodeFaithful", "TypeDecodeFaithful", "FilterInOrder", "Emit"],
            extra_constants="    MaxP = %d\n    MaxF = %d\n" % (mp, mf))
+    # entries whose members come in another order, entries followed by other entries and parameters
+    simple(chk, "MC_Requests", ["all"], ["C14"], ["TypeOK", "DecodeTotal", "DecodeFaithful", "Emit"], cases="OrderCases")
     chk.exhaustive = True
     return ("ALL lists of credential parameters of length 0..%d over {ES256, EdDSA, unknown algorithm, ES256 with "
             "unknown type} and ALL attestation-format lists of length 0..%d over {packed, none, tpm, other} inside "
@@ -527,6 +537,9 @@ def plan_C15(chk, tier, seed):
     simple(chk, "MC_RoundTrip", cfgs, ["C15"], ["TypeOK", "RoundTrip", "TypeDecodeFaithful", "OutputCanonical", "Emit"])
     # the response side through ctap2::Response::serialize, into buffers that are not fresh
     reused_buffers(chk, "C15")
+    # the request side through ctap2::Request::deserialize as well (what the type-level decoder returns can
+    # still be rewritten there): every member over its lattice once per sub-command and per protocol
+    simple(chk, "MC_Requests", ["all"], ["C15"], ["TypeOK", "DecodeTotal", "DecodeFaithful", "Emit"], cases="RtModeCases", workers=14)
     return ("every bidirectional type (ClientPin / CredentialManagement (+ parameters) / LargeBlobs requests; GetInfo / "
             "ClientPin / LargeBlobs responses; hmac-secret input; options; three extension maps; GetInfo options and "
             "certifications; rp, user, descriptors, parameters; COSE keys; all string- and number-valued enumerations) "
@@ -541,6 +554,8 @@ def plan_C16(chk, tier, seed):
     cfgs = ALL8 + ["all+arb"]
     inv = ["TypeOK", "FeatureMonotone", "Emit"]
     vecs = {}
+    base_obs = {}
+    wire_base = {}
     for cfg in cfgs:
         run = "C16.MC_Features.%s" % cfg
         r = tlc("MC_Features", scenario_cfg(cfg, "MC_Cases", inv), run, workers=8, timeout=1800)
@@ -551,7 +566,42 @@ def plan_C16(chk, tier, seed):
         vecs[cfg] = sorted(open(r["vec_path"]).read().splitlines())
         main_ok = True
         try:
-            judge_vectors(chk, cfg, r, run, ["C16"])
+            # DIFFERENTIAL judgement: the property compares configurations with each other.  A vector on
+            # which the real code deviates from the model in the same way under the empty configuration
+            # is broken for another reason (another property's business) and is not a C16 violation; a
+            # vector whose observation under this configuration differs from the one under the empty
+            # configuration is, and is then adjudicated by the trace specification as usual.
+            summary, recs = replay(cfg, r["vec_path"], run + ".full", full=True, props=["C16"])
+            if summary.get("aborted") or summary.get("hang_at") is not None:
+                judge_vectors(chk, cfg, r, run, ["C16"])
+            else:
+                lines = open(r["vec_path"]).read().splitlines()
+                obs = {}
+                for x in recs:
+                    if "line" in x and x["line"] < len(lines):
+                        obs[lines[x["line"]]] = (x.get("outcome"), json.dumps(x.get("obs"), sort_keys=True))
+                chk.replayed += summary.get("compared", 0)
+                bad = [x for x in recs if x.get("outcome") in ("panic", "hang") or x.get("match") is False]
+                if cfg == "none":
+                    base_obs = obs
+                    if bad:
+                        chk.notes.append("%d common vectors deviate from the model under the empty configuration "
+                                         "(not a matter of C16 unless another configuration behaves differently)" % len(bad))
+                else:
+                    same = [x for x in bad if obs.get(lines[x["line"]]) == base_obs.get(lines[x["line"]])]
+                    bad = [x for x in bad if obs.get(lines[x["line"]]) != base_obs.get(lines[x["line"]])]
+                    if same:
+                        chk.notes.append("%d common vectors deviate from the model under %s exactly as under the empty "
+                                         "configuration (not a C16 matter)" % (len(same), cfg))
+                    # also: vectors that MATCH the model here but not under the empty configuration
+                    for ln, o in obs.items():
+                        if ln in base_obs and base_obs[ln] != o and not any(lines[x["line"]] == ln for x in bad):
+                            v = json.loads(ln)
+                            v["props"] = ["C16"]
+                            chk.violation({"cfg": cfg, "vector": v, "outcome": o[0], "obs": json.loads(o[1]),
+                                           "obs_empty_configuration": json.loads(base_obs[ln][1])},
+                                          "the same common vector behaves differently under %s and under the empty configuration" % cfg)
+                    adjudicate(chk, cfg, bad, run)
         except ToolError as e:
             if "harness build failed" not in str(e):
                 raise
@@ -571,6 +621,21 @@ def plan_C16(chk, tier, seed):
                 chk.add_tlc(r2)
                 s3, recs3 = replay_wire(cfg, r2["vec_path"], run2, props=["C16"])
                 chk.replayed += s3.get("compared", 0)
+
+                def wkey(x):
+                    v = dict(x.get("vector") or {})
+                    v.pop("props", None)
+                    return json.dumps(v, sort_keys=True)
+                if cases != "StrictCases":
+                    # differential here too: a round trip that fails in the same way under the empty
+                    # configuration is not a matter of C16 (unless the projection harness could not be
+                    # built at all, in which case this is the only judgement there is)
+                    if cfg == "none":
+                        wire_base[cases] = {wkey(x): json.dumps(x.get("obs"), sort_keys=True) for x in recs3}
+                        if main_ok:
+                            recs3 = []
+                    elif main_ok:
+                        recs3 = [x for x in recs3 if wire_base.get(cases, {}).get(wkey(x)) != json.dumps(x.get("obs"), sort_keys=True)]
                 for x in recs3[:40]:
                     x["cfg"] = cfg
                     chk.violation(x, "wire-level harness: %s %s deviates from the model under configuration %s: diff=%s" % (
@@ -754,11 +819,13 @@ def plan_C04(chk, tier, seed):
         for module, cases, extra in (("MC_Faults", "MC_Cases", '    SeedKinds = {"min", "full"}\n'),
                                      ("MC_Lattice", "MC_Cases", ""),
                                      ("MC_Requests", "MC_Cases", ""),
+                                     ("MC_Requests", "MC_CasesDict", ""),
+                                     ("MC_Requests", "OrderCases", ""),
                                      ("MC_Filter", "MC_Cases", "    MaxP = 4\n    MaxF = 4\n"),
                                      ("MC_Unknown", "C04_Cases", "    Deep = %s\n" % ("TRUE" if tier == "thorough" else "FALSE")),
                                      ("MC_Truncate", "C04_Cases", "    Deep = FALSE\n")):
-            run = "C04.%s.%s" % (module, cfg)
-            if module in ("MC_Truncate", "MC_Unknown", "MC_Filter") and cfg != "all" and tier == "quick":
+            run = "C04.%s.%s.%s" % (module, cases, cfg)
+            if (module in ("MC_Truncate", "MC_Unknown", "MC_Filter") or cases == "MC_CasesDict") and cfg != "all" and tier == "quick":
                 continue          # these corpora hardly depend on the feature configuration
             r = tlc(module, scenario_cfg(cfg, cases, ["TypeOK", "DecodeTotal", "Emit"], 1, extra), run, workers=14)
             if not r["ok"]:
